@@ -1,7 +1,7 @@
 import UF.Model.Storage
 /-
   The storage index: `unpack (pack id idx) = (id, idx)` for ALL pairs of 32-bit values, by bit
-  extensionality (no `bv_decide`, no `decide` over 2^64 values).
+  extensionality and core `BitVec` lemmas only (no SAT-based tactic, no enumeration of 2^64 values).
 -/
 namespace UF.Storage
 
